@@ -286,11 +286,21 @@ impl SenderLink {
 }
 
 impl SenderLink {
+    /// `self.send_transfer_without_modifying_unsettled_map(writer, transfer, payload).await` as called by send_payload_with_transfer: from the moment the first frame is queued the session
+    /// routes the receiver's dispositions for this delivery to the link's unsettled map (LinkRelay::on_incoming_disposition, unit LINK)
+    pub fn queue_frames_of_delivery(&mut self, writer: &mut ChanSender<LinkFrame>, transfer: Transfer, payload: Payload) -> (r: Result<bool, LinkStateError>)
+        requires
+            transfer.delivery_tag is Some && !(if transfer.settled is Some { transfer.settled->Some_0 } else { old(self).snd_settle_mode is Settled }) ==> omap(old(self).unsettled).contains_key(transfer.delivery_tag->Some_0),      // [C02.send.registered-before-first-frame] the completion channel of an unsettled delivery is in the link's unsettled map BEFORE its first frame is handed to the session: an outcome that arrives early (after the first of many frames; on a multi-threaded runtime even for a single frame) must find it there -- otherwise the disposition settles nothing and the send never completes
+        ensures
+            r is Ok ==> r->Ok_0 == (if transfer.settled is Some { transfer.settled->Some_0 } else { old(self).snd_settle_mode is Settled }),
+            final(self).unsettled == old(self).unsettled, final(self).credits_consumed == old(self).credits_consumed, final(self).output_handle == old(self).output_handle, final(self).snd_settle_mode == old(self).snd_settle_mode,
+    { self.send_transfer_without_modifying_unsettled_map(writer, transfer, payload) }
 //@@ fn file=fe2o3-amqp/src/link/sender_link.rs impl=`~impl<T>endpoint::SenderLinkforSenderLink<T>` name=send_payload_with_transfer
 //@@ selfmut
 //@@ ret Result<Settlement, LinkStateError>
 //@@ param writer : &mut ChanSender<LinkFrame>
 //@@ subst `oneshot::channel()` => `oneshot_channel()` rule=R9
+//@@ subst `self .send_transfer_without_modifying_unsettled_map(writer, transfer, payload)` => `self.queue_frames_of_delivery(writer, transfer, payload)` rule=R9
 //@@ subst `let mut guard = self.unsettled.write();` => `let mut guard = &mut self.unsettled;` rule=R4
 //@@ subst `guard .get_or_insert(OrderedMap::new()) .insert(delivery_tag.clone(), unsettled)` => `opt_insert(&mut *guard, delivery_tag.clone(), unsettled)` rule=R15
 //@@ spec
